@@ -93,7 +93,6 @@ class Prop:
     engine = "AIO+TH (deterministic asyncio loop on the simulated clock, run as one controlled thread of the TH engine)"
     quick_runs = 30000
     thorough_runs = 300000
-    quick_budget = 80.0
     chunk = 100
     time_unit = "simulated seconds"
     rule = ("1-3 immediate / relative schedules on AsyncIOScheduler (scheduled and disposed from loop callbacks) and on "
